@@ -624,4 +624,7 @@ def activate(clf, target):
     if target.brty.endswith('A'):
         return Type4ATag(clf, target)
     if target.brty.endswith('B'):
+        if target.sensb_res is None or len(target.sensb_res) < 12:
+            log.debug("sensb_res is too short for a type 4b tag")
+            return None
         return Type4BTag(clf, target)
